@@ -156,6 +156,16 @@ Proof.
   exists v. repeat split; [exact H1|]. apply nonempty_iff. exact H2.
 Qed.
 
+(* decoding every element: the spec's [decoded] and the model's [decode_all] *)
+Lemma decoded_decode_all l :
+  (forall c, In c l -> exists n, decode c = Some n) -> exists all, decoded l = Some all /\ decode_all l = Ok all.
+Proof.
+  induction l as [|c r IH]; intros H; [exists []; split; reflexivity|].
+  destruct (H c (or_introl eq_refl)) as (n & Hn).
+  destruct IH as (all & H1 & H2); [intros c' Hc'; apply H; right; exact Hc'|].
+  exists (n :: all). cbn [decoded decode_all]. rewrite Hn, H1, H2. split; reflexivity.
+Qed.
+
 (* ------------------------------------------------------------------ the invariant *)
 Section Inv.
   Variable is_user : string -> bool.
@@ -200,6 +210,17 @@ Section Inv.
     pose proof (ctext_code_some n t Ht Hne) as Hct.
     destruct (inv_fwd _ _ HI u _ Hu Hc) as (t' & Ht' & Hl). rewrite Hct in Ht'. inversion Ht'; subst t'.
     exists n, t. repeat split; try assumption. apply (inv_keys _ _ HI t u Htu Hl).
+  Qed.
+
+  (* in a reachable state a user's entry has no empty element: the stored identifiers are its elements *)
+  Lemma inv_fw_elements seen d u v : Inv seen d -> is_user u = true -> lookup u d = Some v -> fw d u = elements v.
+  Proof.
+    intros HI Hu Hv. unfold fw. rewrite Hv.
+    assert (H : forall l : list string, (forall x, In x l -> x <> "") -> filter nonempty l = l).
+    { induction l as [|x r IH]; [reflexivity|]. intros Hx. cbn [filter].
+      destruct x as [|a x]; [exfalso; apply (Hx ""); [left; reflexivity|reflexivity]|].
+      cbn [nonempty is_empty_str negb]. f_equal. apply IH. intros y Hy. apply Hx. right. exact Hy. }
+    apply H. intros x Hx. apply (inv_noempty _ _ HI u v x Hu Hv Hx).
   Qed.
 
   Lemma inv_unique seen d u c1 c2 :
